@@ -389,3 +389,21 @@ pub proof fn lemma_no_fit_trunc(a: int, b: int, q0: int)
 {
     assert forall|q: int| #[trigger] is_trunc(a, b, q) implies !fits_i128(q) by { lemma_trunc_unique(a, b, q, q0); }
 }
+
+// ------------------------------------------------------------------------------------------------
+// existence: for b != 0 each rounded quotient exists (so "no fitting quotient" = "the quotient does not fit")
+pub proof fn lemma_rounded_exists(a: int, b: int)
+    requires b != 0
+    ensures //@@ C12:lemma.rounded_quotients_exist
+        exists|q: int| is_floor(a, b, q),
+        exists|q: int| is_ceil(a, b, q),
+        exists|q: int| is_trunc(a, b, q),
+{
+    lemma_model_ops(a, b);
+    let t = rust_div(a, b); let m = a % b;
+    let f = if ((a < 0 && b > 0) || (a > 0 && b < 0)) && m > 0 { t - 1 } else { t };
+    let c = if !((a <= 0 && b > 0) || (a >= 0 && b < 0)) && m > 0 { t + 1 } else { t };
+    assert(is_floor(a, b, f));
+    assert(is_ceil(a, b, c));
+    assert(is_trunc(a, b, t));
+}
